@@ -1,5 +1,6 @@
 import Std.Data.HashMap
 import Driver.Proto
+import Driver.Loop
 import Driver.C01
 import Driver.C02
 import Driver.C03
@@ -30,28 +31,4 @@ def allHandlers : List (String × Handler) :=
   C16.handlers ++ C17.handlers ++ C18.handlers ++ C19.handlers ++ C20.handlers ++
   [("echo", fun args => argBytes args 0)]
 
-def handleLine (tbl : Std.HashMap String Handler) (line : String) : String :=
-  match (line.trimAscii.toString.splitOn " ").filter (· ≠ "") with
-  | [] => "!empty"
-  | op :: args =>
-    match tbl.get? op with
-    | none => s!"!unknown op {op}"
-    | some h =>
-      match h args with
-      | .ok b => if b.isEmpty then "-" else hexEncode b
-      | .error e => s!"!{e}"
-
-partial def loop (tbl : Std.HashMap String Handler) (i o : IO.FS.Stream) : IO Unit := do
-  let line ← i.getLine
-  if line.isEmpty then return ()
-  o.putStrLn (handleLine tbl line)
-  -- flush on every line: the harness may run request/response in lock-step
-  o.flush
-  loop tbl i o
-
-def main (args : List String) : IO Unit := do
-  let tbl : Std.HashMap String Handler := Std.HashMap.ofList allHandlers
-  if args == ["ops"] then
-    for (k, _) in allHandlers do IO.println k
-    return
-  loop tbl (← IO.getStdin) (← IO.getStdout)
+def main (args : List String) : IO Unit := runMain allHandlers args
